@@ -43,3 +43,16 @@ def node(spec):
     if h:
         h("exit", nid)
     return total
+
+
+def flaky_leaf(spec):
+    """raises RetryError on its first `fails` executions, then returns v"""
+    from pynenc.exceptions import RetryError
+    nid = spec["id"]
+    EXEC_COUNT[nid] = EXEC_COUNT.get(nid, 0) + 1
+    h = HOOK[0]
+    if h:
+        h("enter", nid)
+    if EXEC_COUNT[nid] <= spec.get("fails", 1):
+        raise RetryError(f"attempt {EXEC_COUNT[nid]}")
+    return spec["v"]
